@@ -6,7 +6,7 @@ use gm_sm2::exchange::Exchange;
 use gm_sm2::p256_ecc::Point;
 use gm_sm2::verif_hooks as hk;
 use num_bigint::BigUint;
-use num_traits::One;
+use num_traits::{One, Zero};
 use serde_json::json;
 
 #[derive(Clone, Copy, Debug, PartialEq)]
@@ -217,7 +217,7 @@ pub fn run(ctx: &mut Ctx) {
     for (n, ok) in r2::selftest() {
         ctx.selftest(&n, ok);
     }
-    ctx.require(&["annex_kat", "honest_keys_equal", "step2_rejects_invalid_RA", "step3_rejects", "step4_rejects", "klen=1", "klen=16", "klen=200", "kind=OffCurve", "kind=Negated", "kind=OtherPoint", "kind=BitFlipHash"]);
+    ctx.require(&["annex_kat", "honest_keys_equal", "step2_rejects_invalid_RA", "step3_rejects", "step4_rejects", "klen=1", "klen=16", "klen=200", "kind=OffCurve", "kind=Negated", "kind=OtherPoint", "kind=BitFlipHash", "id_non_ascii_utf8", "degenerate_dA_shared_point_infinity_at_B", "degenerate_dB_shared_point_infinity_at_A"]);
     for s in 0..16 {
         ctx.required.push(format!("subset={:04b}", s));
     }
@@ -259,17 +259,41 @@ pub fn run(ctx: &mut Ctx) {
         ctx.class(&format!("klen={}", klen));
         let la = p.range(0, 40);
         let lb = p.range(1, 40);
-        let case = Case {
+        let (ida, idb) = if i % 5 == 2 {
+            ctx.class("id_non_ascii_utf8");
+            (utf8_id(&mut p, la.min(12)), utf8_id(&mut p, lb.min(12)))
+        } else {
+            (ascii_id(&mut p, la), ascii_id(&mut p, lb))
+        };
+        let mut case = Case {
             da: key_for(&mut p, i % 30),
             db: key_for(&mut p, (i / 3) % 45),
-            ida: ascii_id(&mut p, la),
-            idb: ascii_id(&mut p, lb),
+            ida,
+            idb,
             klen,
             ra: rand_scalar(&mut p, &c.n),
             rb: rand_scalar(&mut p, &c.n),
             subset: if i % 3 == 0 { 0 } else { ((i / 3) % 16) as u8 },
             kind: kinds[((i / 48) % 4) as usize],
         };
+        // degenerate static keys: d = -xbar(R) r mod n makes P + [xbar]R = O, so the peer's shared point is the
+        // point at infinity and that peer must report failure (B at step 2 for A's key, A at step 3 for B's key)
+        if i % 25 == 7 || i % 25 == 19 {
+            let for_a = i % 25 == 7;
+            let r = if for_a { case.ra.clone() } else { case.rb.clone() };
+            let rp = r2::mul(&r, &r2::g()).unwrap();
+            let d = (&c.n - (r2::xbar(&rp.0) * &r) % &c.n) % &c.n;
+            if !d.is_zero() && d < &c.n - 1u32 {
+                if for_a {
+                    case.da = d;
+                    ctx.class("degenerate_dA_shared_point_infinity_at_B");
+                } else {
+                    case.db = d;
+                    ctx.class("degenerate_dB_shared_point_infinity_at_A");
+                }
+                case.subset = 0;
+            }
+        }
         history(ctx, &case, &mut p);
         if i % 100 == 0 {
             ctx.sample(json!({"history": wit(&case)}));
